@@ -62,6 +62,7 @@ type specGen struct {
 	nextIx []int
 	shared []int // slots of objects shared from the start
 	tier   string
+	narrow bool
 	maxOps int
 	noFmt  bool // no String/%v operations in this run
 	noXR   bool // no XR objects in this run
@@ -107,11 +108,22 @@ func (g *specGen) newObjSeed(kind int, seed uint64, list bool, shared bool) int 
 	if !list {
 		g.slotKind[slot] = kind
 	}
-	g.s.Objects = append(g.s.Objects, ObjSpec{Slot: slot, Kind: kind, Seed: seed, List: list, Shared: shared})
+	g.s.Objects = append(g.s.Objects, ObjSpec{Slot: slot, Kind: kind, Seed: g.seedFor(seed), List: list, Shared: shared})
 	return slot
 }
 
+// seedFor marks a value seed as narrow or not, after the run's choice (see rng.narrow).
+func (g *specGen) seedFor(seed uint64) uint64 {
+	if g.narrow {
+		return seed | narrowBit
+	}
+	return seed &^ narrowBit
+}
+
 func (g *specGen) emit(t int, op Op) {
+	if op.K == opMutate || op.K == opUnit {
+		op.Seed = g.seedFor(op.Seed)
+	}
 	g.s.Tasks[t] = append(g.s.Tasks[t], op)
 }
 
@@ -578,6 +590,7 @@ func genSpec(seed uint64, cold bool, opOnly bool, tier string) *RunSpec {
 	if tier == "thorough" && r.chance(3) {
 		g.maxOps = 40 + r.intn(60) // long histories
 	}
+	g.narrow = r.chance(3) // swarm style: in a third of the runs every value names the same few sources and texts
 	g.noFmt = r.chance(3)
 	g.noXR = r.chance(4)
 	symmetric := cold || r.chance(5)
@@ -613,7 +626,7 @@ func genSpec(seed uint64, cold bool, opOnly bool, tier string) *RunSpec {
 		// soak objects are called hundreds of times: keep them small (no rtcp code runs here, only struct literals)
 		smallSeed := func(kind int) uint64 {
 			for try := 0; ; try++ {
-				sd := r.u64()
+				sd := g.seedFor(r.u64())
 				if try >= 20 || len(dumpSem(genPacket(kind, sd), false)) < 6000 {
 					return sd
 				}
